@@ -32,6 +32,7 @@ LEAN_MODULES = ["VgiVerif.Proofs.C37"]
 OBLIGATIONS = [
     "VgiVerif.C37.C37_shapes",
     "VgiVerif.C37.C37_mirror",
+    "VgiVerif.C37.C37_allow_config",
     "VgiVerif.C37.C37_agree",
     "VgiVerif.C37.C37_return_to",
     "VgiVerif.C37.C37_return_to_total",
@@ -688,6 +689,75 @@ class Flow:
         return req.path, req.query_string, req.get_param("_vgi_return_to")
 
 
+class DirectFlow(Flow):
+    """The browser flow assembled from the module's own parts with an *explicit* `allowed_return_origins`
+    (`make_wsgi_app` never passes one): `_OAuthPkceMiddleware` + `_OAuthCallbackResource` on a Falcon app whose other
+    paths answer 401 without the auth cookie.  `configured` = None | a tuple of origins (possibly empty)."""
+
+    def __init__(self, ctx: Any, m: Any, prefix: str, configured: tuple[str, ...] | None, client_secret: str | None, use_id_token: bool) -> None:
+        import falcon
+        import falcon.testing
+
+        self.m, self.prefix, self.configured = m, prefix, configured
+        # the spec: the allow-list the operator configured is the one in force; only an absent one means the default
+        self.allow = tuple(sorted(configured)) if configured is not None else tuple(sorted(m._DEFAULT_ALLOWED_RETURN_ORIGINS))
+        # the model: what `__init__` makes of the argument (extracted defaulting expression)
+        model_allow = dcall(ctx, "C37.effectiveAllow", {"configured": [s2j(o) for o in sorted(configured)] if configured is not None else None})
+        self.cfg = {"prefix": s2j(prefix), "allow": model_allow, "clientId": s2j("cid"),
+                    "clientSecret": s2j(client_secret) if client_secret is not None else None, "useIdToken": use_id_token}
+        self.exchange = ("TOK", 3600, "REFRESH", None)
+        self.env = {}
+
+        def exchange(**_k: Any) -> Any:
+            if self.exchange is None:
+                raise ValueError("Token exchange failed: stub")
+            return self.exchange
+
+        self.exchange_stub = exchange
+        skey = session_key(m)
+        disc = lambda: (AUTH_EP, TOKEN_EP)  # noqa: E731
+        redirect_uri = f"https://{BASE_HOST}{prefix}/_oauth/callback"
+        self.mw = m._OAuthPkceMiddleware(session_key=skey, oidc_discovery=disc, client_id="cid", prefix=prefix, secure_cookie=True,
+                                         redirect_uri=redirect_uri,
+                                         allowed_return_origins=frozenset(configured) if configured is not None else None)
+        cb = m._OAuthCallbackResource(session_key=skey, oidc_discovery=disc, client_id="cid", client_secret=client_secret,
+                                      use_id_token=use_id_token, prefix=prefix, secure_cookie=True, redirect_uri=redirect_uri)
+        app = falcon.App(middleware=[self.mw])
+        app.add_route(f"{prefix}/_oauth/callback", cb)
+        app.add_route(f"{prefix}/_oauth/logout", m._OAuthLogoutResource(prefix, True))
+
+        def protected(req: Any, resp: Any, **_kw: Any) -> None:
+            if req.cookies.get(m._AUTH_COOKIE_NAME) in ACCEPTED:
+                resp.text = "hello"
+            else:
+                resp.status = "401 Unauthorized"
+
+        app.add_sink(protected, "/")
+
+        def spy(environ: Any, start_response: Any) -> Any:
+            self.env = dict(environ)
+            return app(environ, start_response)
+
+        self.client = falcon.testing.TestClient(spy)
+
+    def case0(self) -> dict[str, Any]:
+        return {"k": "flow", "direct": True, "prefix": self.prefix, "configured": list(self.configured) if self.configured is not None else None,
+                "allow": list(self.allow)}
+
+
+def k_allow_config(ctx: Any, fl: "DirectFlow") -> None:
+    """K: the allow-list the real middleware holds vs the model's `effectiveAllow`;  O: it is the configured one."""
+    got = sorted(fl.mw._allowed_return_origins)
+    model = sorted(j2s(x) for x in fl.cfg["allow"])
+    case = dict(fl.case0(), step="allow-config")
+    ctx.case(case, tags=("k2:allow-config", "allow-config:" + ("none" if fl.configured is None else str(len(fl.configured)))))
+    if got != model:
+        ctx.mismatch(case, model, got, "_OAuthPkceMiddleware.__init__ (allow-list in force): model vs implementation")
+    if got != list(fl.allow):
+        fail(ctx, case, "C37:allow-config:configured-allowlist-not-in-force:" + ("empty" if fl.configured == () else "other"),
+             f"allowed_return_origins={fl.configured!r} was configured, but the middleware validates _vgi_return_to against {got}")
+
+
 def wire_rt(rt: str | None, qs: str) -> str:
     if rt is None:
         return qs
@@ -993,6 +1063,33 @@ def run(ctx: Any) -> None:
             for u in WITNESS_URLS:
                 flow_login(ctx, spec, fl, fl.prefix + "/describe", "", u, ["faithful"], case0)
                 flow_authenticated(ctx, spec, fl, fl.prefix + "/describe", u, GOOD, "GET", case0)
+        # ---- the configuration grid: explicit allow-lists (absent, empty, one, several) on directly assembled apps,
+        #      with targets on the built-in default origin, on every configured origin, on loopback and elsewhere
+        m._DEFAULT_ALLOWED_RETURN_ORIGINS = saved["_DEFAULT_ALLOWED_RETURN_ORIGINS"]  # the `Flow`s above substituted it
+        default_origins = tuple(sorted(saved["_DEFAULT_ALLOWED_RETURN_ORIGINS"]))
+        configs: list[tuple[str, ...] | None] = [None, (), ("https://app.example.com:8443",), ALLOWLISTS[1],
+                                                 ("https://app.example.com:8443", "http://192.168.1.5:3000"), default_origins]
+        directs: list[DirectFlow] = []
+        for prefix in ("", "/vgi"):
+            for i, conf in enumerate(configs):
+                directs.append(DirectFlow(ctx, m, prefix, conf, "s3cret" if i % 2 == 0 else None, i % 3 == 0))
+        origin_pool = sorted(set(default_origins) | set(ALLOWLISTS[1]) | {"http://localhost:5173", "http://127.0.0.1:3000", "https://evil.com",
+                                                                         "https://localhost"})
+        for fl in directs:
+            k_allow_config(ctx, fl)
+            flow_logout(ctx, spec, fl, fl.case0())
+            for o in origin_pool:
+                for tail in ("/app", "/x?y=1#z"):
+                    flow_login(ctx, spec, fl, fl.prefix + "/describe", "", o + tail, ["faithful"], fl.case0())
+                    flow_authenticated(ctx, spec, fl, fl.prefix + "/describe", o + tail, GOOD, "GET", fl.case0())
+        for _ in range(ctx.budget(120, 3000)):
+            fl = rng.choice(directs)
+            rt = gen_url(rng, tuple(origin_pool))
+            if not no_surrogates(rt):
+                continue
+            flow_login(ctx, spec, fl, gen_req_path(rng, fl.prefix), gen_query(rng), rt, ["faithful", rng.choice(["cookie", "state", "age", "norefresh"])], fl.case0())
+            if rng.random() < 0.5:
+                flow_authenticated(ctx, spec, fl, fl.prefix + "/x", rt, rng.choice(TOKENS), "GET", fl.case0())
         all_variants = ["faithful", "cookie", "cookie", "state", "age", "nocode", "error", "exchange", "norefresh"]
         for _ in range(n_flow):
             fl = rng.choice(flows)
@@ -1038,10 +1135,16 @@ def replay(ctx: Any, case: dict[str, Any]) -> None:
                 p = case["prefix"]
                 spec.same_origin(case, base_json(p, p + "/_oauth/callback", "code=c"), res["ok"], p, "original-url")
         elif k == "flow":
-            fl = Flow(m, case["prefix"], tuple(case["allow"]), "s3cret", False)
-            case0 = {"k": "flow", "prefix": fl.prefix, "allow": list(fl.allow)}
+            if case.get("direct"):
+                fl = DirectFlow(ctx, m, case["prefix"], tuple(case["configured"]) if case["configured"] is not None else None, "s3cret", False)
+                case0 = fl.case0()
+            else:
+                fl = Flow(m, case["prefix"], tuple(case["allow"]), "s3cret", False)
+                case0 = {"k": "flow", "prefix": fl.prefix, "allow": list(fl.allow)}
             step = case.get("step")
-            if step == "logout":
+            if step == "allow-config":
+                k_allow_config(ctx, fl)
+            elif step == "logout":
                 flow_logout(ctx, spec, fl, case0)
             elif step == "authenticated":
                 flow_authenticated(ctx, spec, fl, case["path"], case["return_to"], case["token"], case["method"], case0)
